@@ -185,7 +185,7 @@ func (env *Zlisp) compareSymbol(sym *SexpSymbol, expr Sexp) (int, error) {
 	return 0, errors.New(errmsg)
 }
 
-func (env *Zlisp) comparePair(a *SexpPair, b Sexp) (int, error) {
+func (env *Zlisp) comparePair(a *SexpPair, b Sexp, depth int) (int, error) {
 	var bp *SexpPair
 	switch t := b.(type) {
 	case *SexpPair:
@@ -203,17 +203,18 @@ func (env *Zlisp) comparePair(a *SexpPair, b Sexp) (int, error) {
 		errmsg := fmt.Sprintf("err 96: cannot compare %T to %T", a, b)
 		return 0, errors.New(errmsg)
 	}
-	res, err := env.Compare(a.Head, bp.Head)
+	res, err := env.compareNested(a.Head, bp.Head, depth+1)
 	if err != nil {
 		return 0, err
 	}
 	if res != 0 {
 		return res, nil
 	}
-	return env.Compare(a.Tail, bp.Tail)
+	// (the rest of a list is not nested deeper than the list)
+	return env.compareNested(a.Tail, bp.Tail, depth)
 }
 
-func (env *Zlisp) compareArray(a *SexpArray, b Sexp) (int, error) {
+func (env *Zlisp) compareArray(a *SexpArray, b Sexp, depth int) (int, error) {
 	var ba *SexpArray
 	switch t := b.(type) {
 	case *SexpArray:
@@ -230,7 +231,7 @@ func (env *Zlisp) compareArray(a *SexpArray, b Sexp) (int, error) {
 	}
 
 	for i := 0; i < length; i++ {
-		res, err := env.Compare(a.Val[i], ba.Val[i])
+		res, err := env.compareNested(a.Val[i], ba.Val[i], depth+1)
 		if err != nil {
 			return 0, err
 		}
@@ -280,7 +281,20 @@ func comparePointers(a *SexpPointer, bs Sexp) (int, error) {
 	return 1, nil
 }
 
+// MaxCompareDepth is the nesting depth to which Compare follows the elements
+// of arrays and lists.
+const MaxCompareDepth = 10000
+
 func (env *Zlisp) Compare(a Sexp, b Sexp) (int, error) {
+	return env.compareNested(a, b, 0)
+}
+
+// compareNested is Compare at the given nesting depth. A value can contain
+// itself (see aset), so the descent has a bound instead of an end.
+func (env *Zlisp) compareNested(a Sexp, b Sexp, depth int) (int, error) {
+	if depth > MaxCompareDepth {
+		return 0, fmt.Errorf("cannot compare values nested deeper than %d levels (a value that contains itself?)", MaxCompareDepth)
+	}
 
 	var err error
 	if sel, isSel := a.(Selector); isSel {
@@ -312,9 +326,9 @@ func (env *Zlisp) Compare(a Sexp, b Sexp) (int, error) {
 	case *SexpSymbol:
 		return env.compareSymbol(at, b)
 	case *SexpPair:
-		return env.comparePair(at, b)
+		return env.comparePair(at, b, depth)
 	case *SexpArray:
-		return env.compareArray(at, b)
+		return env.compareArray(at, b, depth)
 	case *SexpHash:
 		return env.compareHash(at, b)
 	case *RegisteredType:
